@@ -6,7 +6,9 @@ def run(modname, fn, **kw):
     import os; D=os.environ.get('MIR_DIR','/var/tmp/pearl-verif/mir'); crate=P.Crate(open(D+'/pearl.mir').read(), D+'/src')
     mod=importlib.import_module('mir2smt.'+modname)
     try:
+        P.CURRENT_OB='%s.%s'%(modname,fn); del P.ALL_EXECUTORS[:]
         r=getattr(mod, fn)(crate, **kw)
+        print('opaque', sorted(set().union(*[e.opaque_seen for e in P.ALL_EXECUTORS])))
         print(r.name, r.status, r.detail, "paths", r.paths, "queries", r.queries, "solver_s", round(r.solver_s,2), "wall", round(time.time()-t,1))
         print("covers", r.covers); print("summ", r.summaries); print("havoc", r.havoc); print("inl", r.inlined)
         if r.model is not None: print(r.model)
